@@ -340,6 +340,20 @@ def gen_cases(rng, tier):
     for _ in range(40 * K):
         l = g.mutate_fai(rng, g.fai_text(rng)[:1])[0]
         add('fai', b'\t'.join(l) + b'\n', 'single')
+    # ITF-8 arrays of the CRAM stream reader (count feeds make)
+    for _ in range(60 * K):
+        n = rng.choice([0, 1, 2, 3, 5, 40])
+        vals = [rng.choice([0, 1, -1, 127, 128, 2**14, 2**21, 2**28, -2**31, 2**31 - 1]) for _ in range(n)]
+        cnt = rng.choice([n, n, n, n + 1, n - 1, -1, -2**31, 0, 2**31 - 1, 1000])
+        b = g.itf8(cnt) + b''.join(g.itf8(v) for v in vals)
+        r = rng.random()
+        if r < 0.3 and b:
+            b = b[:rng.randrange(len(b))]
+        elif r < 0.4 and b:
+            bb = bytearray(b)
+            bb[rng.randrange(len(bb))] ^= 1 << rng.randrange(8)
+            b = bytes(bb)
+        add('itf8slice', b, 'gen')
     # CRAM
     for _ in range(12 * K):
         fs = g.cram_fields(rng)
@@ -405,7 +419,7 @@ def run(res, rng, tier):
                 'non-trivial = the decoder got past its first check (value returned, or an error other than magic/field-count/EOF); distinct by (decoder, input)')
     pick = [i for i, o in enumerate(obs) if o.get('cls') == 'ok'][:2] + [i for i, o in enumerate(obs) if o.get('cls') == 'err'][:2] + [len(obs) - 1]
     res.samples = [dict(case=cases[i], observed=slim(obs[i])) for i in pick]
-    res.notes.append('partial: cram_block_value_safe_partial excludes slice header blocks; Container.readFrom / Slice.readFrom (LTF-8), value safety of '
+    res.notes.append('no theorem for: value safety of '
                      'ParseAux results, UnmarshalSAM as a whole, fai.NewIndex and the BGZF reader have no theorem: correspondence and/or fuzz only')
     res.notes.append('the fuzz part is a test: %d decoder runs, %d of them not judged (memory guard)' % (res.evaluations, memguard))
     res.trusted = TRUSTED
